@@ -267,6 +267,14 @@ def gen_keyed_cases(rng):
         return out
     setup = keyed("k1", rng.choice([9, 12, 15]), rng.choice([3, 3, 4, 5])) + keyed("k2", rng.choice([6, 9, 12]), rng.choice([2, 3, 4]))
     lo, hi = sorted(rng.sample(range(0, 40), 2))
+    # deletions that stay in delete vectors (no compaction in between): deleted rows inside and at
+    # the edges of the key ranges asked for below
+    if rng.random() < 0.7:
+        setup.append("delete from k1 where id %% %d = %d" % (rng.choice([2, 3]), rng.choice([0, 1])))
+    if rng.random() < 0.5:
+        setup.append("delete from k1 where id >= %d and id <= %d" % (lo, lo + rng.choice([0, 1, 3])))
+    if rng.random() < 0.4:
+        setup.append("delete from k2 where v = 1 or id = %d" % hi)
     qs = [
         ("select id, v from k1 order by id", True, 1),
         ("select id from k1 order by id desc", True, 1),
